@@ -49,6 +49,7 @@ struct Cfg {
     backlog: usize,
     retxt: u32,
     retxmax: u32,
+    wild: bool,
 }
 
 impl Cfg {
@@ -60,11 +61,12 @@ impl Cfg {
             backlog: arg_u64(a, "backlog", 1) as usize,
             retxt: arg_u64(a, "retxt", 3) as u32,
             retxmax: arg_u64(a, "retxmax", 2) as u32,
+            wild: arg_u64(a, "wild", 0) == 1,
         }
     }
     fn json(&self) -> Value {
         json!({"mss": self.mss, "scap": self.scap, "rcap": self.rcap, "backlog": self.backlog,
-               "retxt": self.retxt, "retxmax": self.retxmax})
+               "retxt": self.retxt, "retxmax": self.retxmax, "wild": self.wild})
     }
 }
 
@@ -88,6 +90,8 @@ struct World {
     servers: HashMap<i64, Option<TcpStream>>,
     written: HashMap<(i64, String), usize>,
     rcap: usize,
+    /// bind the listener to 0.0.0.0 instead of the acceptor host's address
+    wild: bool,
 }
 
 fn cx() -> Context<'static> {
@@ -161,6 +165,7 @@ impl World {
             servers: HashMap::new(),
             written: HashMap::new(),
             rcap: cfg.rcap,
+            wild: cfg.wild,
         }
     }
 
@@ -313,7 +318,8 @@ impl World {
 
     fn listen(&mut self) -> Value {
         set_current(self.h2);
-        let mut f = Box::pin(TcpListener::bind(SocketAddr::new(IP2, LPORT)));
+        let lip = if self.wild { IpAddr::V4(Ipv4Addr::UNSPECIFIED) } else { IP2 };
+        let mut f = Box::pin(TcpListener::bind(SocketAddr::new(lip, LPORT)));
         let port = match f.as_mut().poll(&mut cx()) {
             Poll::Ready(Ok(l)) => {
                 let p = l.local_addr().map(|a| mport(a.port())).unwrap_or(-1);
@@ -484,27 +490,37 @@ impl World {
         Some(self.fin(json!({"ev": "close", "p": p, "side": side})))
     }
 
-    fn udp(&mut self, n: usize) -> Value {
+    /// One UDP probe from host 1 to an unbound port of host 2: `send_to`, or `connect` + `try_send`.
+    fn udp(&mut self, n: usize, mode: &str) -> Value {
         set_current(self.h1);
+        let dst = SocketAddr::new(IP2, UDP_DST);
         let mut f = Box::pin(UdpSocket::bind(SocketAddr::new(IP1, UDP_SRC)));
-        let (res, npk) = match f.as_mut().poll(&mut cx()) {
+        let res = match f.as_mut().poll(&mut cx()) {
             Poll::Ready(Ok(s)) => {
-                let before = self.outbound_udp_probe();
-                let r = s.try_send_to(&vec![0u8; n], SocketAddr::new(IP2, UDP_DST));
+                let r = if mode == "send" {
+                    let connected = {
+                        let mut c = Box::pin(s.connect(dst));
+                        matches!(c.as_mut().poll(&mut cx()), Poll::Ready(Ok(())))
+                    };
+                    if connected {
+                        s.try_send(&vec![0u8; n])
+                    } else {
+                        Err(io::Error::from(io::ErrorKind::NotConnected))
+                    }
+                } else {
+                    s.try_send_to(&vec![0u8; n], dst)
+                };
                 drop(s);
-                let _ = before;
-                match r {
-                    Ok(_) => ("ok", 1),
-                    Err(_) => ("err", 0),
+                if r.is_ok() {
+                    "ok"
+                } else {
+                    "err"
                 }
             }
-            _ => ("err", 0),
+            _ => "err",
         };
-        self.fin(json!({"ev": "udp", "n": n, "res": res, "npk": npk}))
-    }
-
-    fn outbound_udp_probe(&self) -> usize {
-        0
+        let npk = if res == "ok" { 1 } else { 0 };
+        self.fin(json!({"ev": "udp", "n": n, "mode": mode, "res": res, "npk": npk}))
     }
 
     // ---- the wire ----------------------------------------------------------
@@ -591,7 +607,7 @@ fn exec(w: &mut World, l: &Value) -> Option<Vec<Value>> {
         "read" => one(w.read(p, &side, l["n"].as_u64().unwrap_or(1) as usize)),
         "shutdown" => one(w.shutdown(p, &side)),
         "close" => one(w.close(p, &side)),
-        "udp" => Some(vec![w.udp(l["n"].as_u64().unwrap_or(0) as usize)]),
+        "udp" => Some(vec![w.udp(l["n"].as_u64().unwrap_or(0) as usize, l["mode"].as_str().unwrap_or("sendto"))]),
         "egress" => Some(vec![w.egress()]),
         "deliver" => one(w.deliver(l["i"].as_u64().unwrap_or(0) as usize)),
         "drop" => one(w.drop_pk(l["i"].as_u64().unwrap_or(0) as usize)),
@@ -784,6 +800,7 @@ struct RCfg {
     steps: usize,
     listen_first: bool,
     idle_rounds: usize,
+    closeprob: u32,
 }
 
 fn random_run(cfg: &Cfg, rc: &RCfg, rng: &mut StdRng, events: &mut Vec<Value>) {
@@ -883,7 +900,23 @@ fn random_run(cfg: &Cfg, rc: &RCfg, rng: &mut StdRng, events: &mut Vec<Value>) {
             }
         }
     }
-    // settle: deliver everything, idle rounds, then every reader reads until it blocks
+    settle(&mut w, events, &mut eps, rc);
+    let _ = w.rcap;
+    w.teardown();
+}
+
+fn poll_into(w: &mut World, events: &mut Vec<Value>, eps: &mut Vec<(i64, String)>) {
+    for e in w.poll_connects() {
+        if e["res"] == "ok" {
+            eps.push((e["lp"].as_i64().unwrap(), "c".into()));
+        }
+        events.push(e);
+    }
+}
+
+/// Deliver everything, idle until every retransmit budget has run out, accept what is
+/// queued, then every reader reads until it blocks / sees EOF / an error. Twice.
+fn settle(w: &mut World, events: &mut Vec<Value>, eps: &mut Vec<(i64, String)>, rc: &RCfg) {
     for _round in 0..2 {
         let mut idle = 0;
         let mut guard = 0;
@@ -891,12 +924,12 @@ fn random_run(cfg: &Cfg, rc: &RCfg, rng: &mut StdRng, events: &mut Vec<Value>) {
             guard += 1;
             while !w.wire.is_empty() {
                 events.push(w.deliver(1).unwrap());
-                push_polls(&mut w, events, &mut eps);
+                poll_into(w, events, eps);
             }
             let e = w.egress();
             let quiet = e["pk"].as_array().unwrap().is_empty();
             events.push(e);
-            push_polls(&mut w, events, &mut eps);
+            poll_into(w, events, eps);
             idle = if quiet { idle + 1 } else { 0 };
         }
         while let Some(e) = w.accept() {
@@ -918,7 +951,136 @@ fn random_run(cfg: &Cfg, rc: &RCfg, rng: &mut StdRng, events: &mut Vec<Value>) {
             }
         }
     }
-    let _ = w.rcap;
+}
+
+/// Deliver the packets in flight in a seeded order, dropping at most `budget` of them.
+fn flush_wire(w: &mut World, events: &mut Vec<Value>, eps: &mut Vec<(i64, String)>, rng: &mut StdRng, drops: &mut u32, budget: u32, pdrop: u32) {
+    while !w.wire.is_empty() {
+        let i = rng.random_range(1..=w.wire.len());
+        if *drops < budget && rng.random_range(0..100) < pdrop {
+            *drops += 1;
+            events.push(w.drop_pk(i).unwrap());
+        } else {
+            events.push(w.deliver(i).unwrap());
+            poll_into(w, events, eps);
+        }
+    }
+}
+
+/// Directed choreography 1: data in both directions and crossing closes (simultaneous close),
+/// with at most `maxdrops` losses placed by the seed.
+fn simclose_run(cfg: &Cfg, rc: &RCfg, rng: &mut StdRng, events: &mut Vec<Value>) {
+    let mut w = World::new(cfg);
+    let mut eps: Vec<(i64, String)> = Vec::new();
+    let mut drops = 0u32;
+    events.push(w.listen());
+    events.push(w.connect());
+    for _ in 0..8 {
+        events.push(w.egress());
+        poll_into(&mut w, events, &mut eps);
+        flush_wire(&mut w, events, &mut eps, rng, &mut drops, 0, 0);
+        if let Some(e) = w.accept() {
+            eps.push((e["pp"].as_i64().unwrap(), "s".into()));
+            events.push(e);
+        }
+        if eps.len() == 2 {
+            break;
+        }
+    }
+    if eps.len() == 2 {
+        let p = eps[0].0;
+        // both sides write
+        for side in ["c", "s"] {
+            let n = rng.random_range(0..=rc.wmax.min(rc.maxbytes));
+            if n > 0 {
+                let data = w.next_bytes(p, side, n);
+                if let Some(e) = w.write(p, side, &data) {
+                    events.push(e);
+                }
+            }
+        }
+        if rng.random_range(0..3) == 0 {
+            events.push(w.egress());
+            flush_wire(&mut w, events, &mut eps, rng, &mut drops, rc.maxdrops, 25);
+        }
+        // crossing closes: shutdown (handle kept, reads continue) or drop of the stream
+        let mut order = ["c", "s"];
+        if rng.random_range(0..2) == 0 {
+            order.swap(0, 1);
+        }
+        for (k, side) in order.iter().enumerate() {
+            if rng.random_range(0..100) < rc.closeprob {
+                if let Some(e) = w.close(p, side) {
+                    events.push(e);
+                    eps.retain(|x| !(x.0 == p && x.1 == *side));
+                }
+            } else if let Some(e) = w.shutdown(p, side) {
+                events.push(e);
+            }
+            if k == 0 && rng.random_range(0..4) == 0 {
+                events.push(w.egress());
+            }
+        }
+        // the segments and FINs of both sides are emitted together and cross on the wire
+        for _ in 0..rng.random_range(2..5) {
+            events.push(w.egress());
+            poll_into(&mut w, events, &mut eps);
+            flush_wire(&mut w, events, &mut eps, rng, &mut drops, rc.maxdrops, 35);
+        }
+    }
+    settle(&mut w, events, &mut eps, rc);
+    w.teardown();
+}
+
+/// Directed choreography 2: the listener is dropped at a seeded point of a handshake in flight.
+fn lsndrop_run(cfg: &Cfg, rc: &RCfg, rng: &mut StdRng, events: &mut Vec<Value>) {
+    let mut w = World::new(cfg);
+    let mut eps: Vec<(i64, String)> = Vec::new();
+    let mut drops = 0u32;
+    events.push(w.listen());
+    let nconn = rng.random_range(1..=rc.nconn.max(1));
+    for _ in 0..nconn {
+        events.push(w.connect());
+    }
+    let cut = rng.random_range(0..7);
+    let mut dropped = false;
+    for step in 0..8 {
+        if step == cut && !dropped {
+            dropped = true;
+            events.push(w.droplistener());
+        }
+        if step % 2 == 0 {
+            events.push(w.egress());
+            poll_into(&mut w, events, &mut eps);
+        } else {
+            // deliver what is in flight, oldest first, possibly keeping the newest back one round
+            let keep = if rng.random_range(0..3) == 0 && w.wire.len() > 1 { 1 } else { 0 };
+            while w.wire.len() > keep {
+                events.push(w.deliver(1).unwrap());
+                poll_into(&mut w, events, &mut eps);
+            }
+        }
+        if !dropped && rng.random_range(0..4) == 0 {
+            if let Some(e) = w.accept() {
+                eps.push((e["pp"].as_i64().unwrap(), "s".into()));
+                events.push(e);
+            }
+        }
+    }
+    if !dropped {
+        events.push(w.droplistener());
+    }
+    flush_wire(&mut w, events, &mut eps, rng, &mut drops, 0, 0);
+    // sometimes the connector gives up its streams as well
+    if rng.random_range(0..2) == 0 {
+        for (p, side) in eps.clone() {
+            if let Some(e) = w.close(p, &side) {
+                events.push(e);
+                eps.retain(|x| !(x.0 == p && x.1 == side));
+            }
+        }
+    }
+    settle(&mut w, events, &mut eps, rc);
     w.teardown();
 }
 
@@ -937,14 +1099,25 @@ fn random(args: &[String]) {
         steps: arg_u64(args, "steps", 120) as usize,
         listen_first: arg_u64(args, "listenfirst", 1) == 1,
         idle_rounds: (cfg.retxt * (cfg.retxmax + 1) + 2) as usize,
+        closeprob: arg_u64(args, "closeprob", 30) as u32,
     };
+    let mode = arg(args, "mode").unwrap_or_else(|| "walk".to_string());
+    let wild = arg_u64(args, "wild", 0);
     let mut events: Vec<Value> = Vec::new();
     let mut panics = 0;
     for r in 0..runs {
         let mut rng = StdRng::seed_from_u64(seed.wrapping_mul(1_000_003).wrapping_add(r));
         events.push(json!({"ev": "reset", "cfg": cfg.json(), "run": r}));
         let mut evs = Vec::new();
-        let res = catch(|| random_run(&cfg, &rc, &mut rng, &mut evs));
+        let mut cfg = cfg.clone();
+        if wild == 2 {
+            cfg.wild = rng.random_range(0..2) == 0;
+        }
+        let res = catch(|| match mode.as_str() {
+            "simclose" => simclose_run(&cfg, &rc, &mut rng, &mut evs),
+            "lsndrop" => lsndrop_run(&cfg, &rc, &mut rng, &mut evs),
+            _ => random_run(&cfg, &rc, &mut rng, &mut evs),
+        });
         events.extend(evs);
         if let Err(m) = res {
             panics += 1;
